@@ -102,6 +102,58 @@ func VH_closure(which int) {
 	}
 }
 
+// VH_reentrant (C04): a call site that is re-entered while its own arguments are being
+// evaluated. pack(p1..pk) returns its parameters as an array; nest(n) calls
+// pack(..., nest(n-1), ...) with the recursive call in argument position pos and n (or n+100)
+// in the others, and is itself called twice from the top level with depths d1, d2 — so the same
+// call node is evaluated re-entrantly and repeatedly. Every activation must see exactly its own
+// arguments, by position.
+func VH_reentrant() {
+	k := 2 + verifChoice(2)
+	pos := verifChoice(k)
+	d1 := 1 + verifChoice(3)
+	d2 := 1 + verifChoice(3)
+	params, elems, args := "", "", ""
+	for j := 0; j < k; j++ {
+		if j > 0 {
+			params += ", "
+			elems += ", "
+			args += ", "
+		}
+		params += fmt.Sprintf("p%d", j)
+		elems += fmt.Sprintf("p%d", j)
+		if j == pos {
+			args += "nest(n - 1)"
+		} else {
+			args += fmt.Sprintf("n + %d", 100*j)
+		}
+	}
+	src := kwFun + " pack(" + params + ") { " + kwReturn + " [" + elems + "]; }\n" +
+		kwFun + " nest(n) { " + kwIf + " (n == 0) { " + kwReturn + " 0; } " + kwReturn + " pack(" + args + "); }\n" +
+		fmt.Sprintf("%s nest(%d);\n%s nest(%d);\n", kwPrint, d1, kwPrint, d2)
+	var want func(n int) string
+	want = func(n int) string {
+		if n == 0 {
+			return "0"
+		}
+		out := "["
+		for j := 0; j < k; j++ {
+			if j > 0 {
+				out += " "
+			}
+			if j == pos {
+				out += want(n - 1)
+			} else {
+				out += fmt.Sprint(n + 100*j)
+			}
+		}
+		return out + "]"
+	}
+	got, ok := runSource(src)
+	verifAssert("recursion-program-runs", ok)
+	verifAssert("recursion-reentrant-call-site-keeps-its-arguments", sameLines(got, []string{want(d1), want(d2)}))
+}
+
 func sameLines(a, b []string) bool {
 	if len(a) != len(b) {
 		return false
@@ -227,4 +279,117 @@ func VH_diagText(nkeys int) {
 		}
 	}
 	verifAssert("diagnostic-text-repeats", texts[0] == texts[1])
+}
+
+// VH_diagQuoted (C06): diagnostics that quote user text. The quoted text holds a '%' (legal in a
+// string, and what the modulo operator looks like in a quoted expression) next to arbitrary
+// code points; the first diagnostic must still name the line of the failing operation and the
+// program must stop there.
+//
+//	0: - "<r1>50%<r2>"            (operand-type error quoting the string)
+//	1: t[(i % 2)].missing         (missing property, the message quotes the object expression)
+//	2: key-remove(o, "<r1>%d<r2>")  (built-in failure quoting the key)
+func VH_diagQuoted(which int) {
+	const L = 7
+	r1, r2 := verifNondetRune(), verifNondetRune()
+	verifAssume(r1 != 0 && r2 != 0 && r1 != 10 && r2 != 10)
+	in := NewInterpreter()
+	env := in.globals // Interpret runs the program in a child of the globals
+	var node ast.Expr
+	switch which {
+	case 0:
+		node = &ast.Unary{Operator: tok(token.MINUS, "-", L), Right: &ast.Literal{Value: []rune{r1, '5', '0', '%', r2}, Line: L}, Line: L}
+	case 1:
+		env.Define("t", []interface{}{map[string]interface{}{"a": 1.0}, map[string]interface{}{"a": 2.0}})
+		env.Define("i", 3.0)
+		idx := &ast.Binary{Left: &ast.Identifier{Name: tok(token.IDENTIFIER, "i", L), Line: L}, Operator: tok(token.MODULO, "%", L), Right: &ast.Literal{Value: 2.0, Line: L}, Line: L}
+		node = &ast.PropertyAccess{Object: &ast.ArrayAccess{Array: &ast.Identifier{Name: tok(token.IDENTIFIER, "t", L), Line: L}, Index: idx, Line: L}, Property: tok(token.IDENTIFIER, "missing", L), Line: L}
+	default:
+		env.Define("o", map[string]interface{}{"a": 1.0})
+		callee := &ast.Literal{Value: NativeDeleteFn{}, Line: L}
+		node = &ast.Call{Callee: callee, Paren: tok(token.RIGHT_PAREN, ")", L), Arguments: []ast.Expr{&ast.Identifier{Name: tok(token.IDENTIFIER, "o", L), Line: L}, &ast.Literal{Value: []rune{r1, '%', 'd', r2}, Line: L}}}
+	}
+	prog := []ast.Stmt{
+		&ast.PrintStatement{Expression: node},
+		&ast.PrintStatement{Expression: &ast.Literal{Value: 1.0, Line: L + 1}},
+	}
+	utils.HadError, utils.HadRuntimeError = false, false
+	verifClearEvents()
+	in.Interpret(prog, false)
+	nerr := 0
+	for i := 0; i < verifNumEvents(); i++ {
+		switch verifEventKind(i) {
+		case 1:
+			verifAssert("nothing-printed-after-first-diagnostic", false)
+		case 2:
+			if nerr == 0 {
+				verifAssert("first-diagnostic-names-the-failing-line", verifEventB(i) == L)
+				if which == 1 {
+					// guards the harness itself: the diagnostic is the one that quotes the expression
+					verifAssert("first-diagnostic-describes-the-operation", verifTextContainsInOrder(verifEventText(i), "(i % 2)"))
+				}
+			}
+			nerr++
+		}
+	}
+	verifAssert("missing-diagnostic", nerr >= 1)
+	verifAssert("diagnostic-sets-flag", utils.HadRuntimeError)
+}
+
+// VH_dupKeys (C13): an object literal in which a property name is written more than once (which
+// initialisers run for a repeated name is not this property's business; that the same program
+// does the same thing every time is). The literal goes through the real parser and Interpret
+// twice, every map range taking its own order; the sequence of initialiser evaluations, what is
+// printed and the first diagnostic must repeat.
+func VH_dupKeys(nkeys int) {
+	vpReset(1, 0, false)
+	stOnline = false
+	// nkeys names in source order, then one of them again
+	ks := []int{}
+	for i := 0; i < nkeys; i++ {
+		ks = append(ks, i)
+	}
+	ks = append(ks, verifChoice(nkeys))
+	withMissing := verifChoice(2) == 1
+	var seq [2]string
+	var outs [2]string
+	for run := 0; run < 2; run++ {
+		in := NewInterpreter()
+		vpN = 0
+		for i := 0; i < len(ks); i++ {
+			vpNew(0, 0, 1)
+			vpCalls[i] = 0
+			in.globals.Define(fmt.Sprintf("p%d", i), verifProbe{i})
+			vpVals[i][0] = float64(i + 1)
+		}
+		toks := objectLiteralTokens(ks, 1)
+		toks = toks[:len(toks)-2]
+		if withMissing {
+			// ( { … } ) . zz ;  — the diagnostic quotes the literal
+			toks = append(toks, tk(token.DOT, ".", nil, 1), tk(token.IDENTIFIER, "zz", nil, 1))
+		}
+		toks = append(toks, tk(token.SEMICOLON, ";", nil, 1), tk(token.EOF, "", nil, 1))
+		toks = append([]token.Token{tk(token.PRINT, "print", nil, 1)}, toks...)
+		utils.HadError, utils.HadRuntimeError = false, false
+		stmts, err := parser.NewParser(toks).Parse()
+		if err != nil {
+			verifAssert("duplicate-key-program-parses", false)
+			return
+		}
+		verifClearEvents()
+		in.Interpret(stmts, false)
+		verifAssert("duplicate-key-program-runs", utils.HadRuntimeError == withMissing)
+		for i := 0; i < verifNumEvents(); i++ {
+			switch verifEventKind(i) {
+			case 3:
+				seq[run] += fmt.Sprint(verifEventA(i)) + ","
+			case 1, 2:
+				if outs[run] == "" {
+					outs[run] = verifEventText(i)
+				}
+			}
+		}
+	}
+	verifAssert("initialisers-run-in-the-same-order-every-time", seq[0] == seq[1])
+	verifAssert("same-output-every-time", outs[0] == outs[1])
 }
